@@ -48,6 +48,7 @@ def doc_norm(kind, text):
 
 
 def atom(k, t, opts):
+    t = t.replace("\r\n", "\n")
     if k in ("dlo", "dli", "dbo", "dbi"):
         return doc_norm(k, t)
     if k.startswith("lit:"):
@@ -65,10 +66,10 @@ def lit_norm(k, t, opts):
         if m:
             return m.group(1) + m.group(2).lower() + m.group(3)
     if kind == "float" and opts.get("float_literal_trailing_zero", "Preserve") != "Preserve":
-        m = re.match(r"^([0-9_]+)\.([0-9_]*)((?:[eE][+-]?[0-9_]+)?)(.*)$", t)
+        m = re.match(r"^([0-9_]+)(?:\.([0-9_]*))?((?:[eE][+-]?[0-9_]+)?)(.*)$", t)
         if m:
-            frac = m.group(2).rstrip("0")
-            return m.group(1) + "." + frac + m.group(3) + m.group(4)
+            frac = (m.group(2) or "").rstrip("0_")
+            return m.group(1) + ("." + frac if frac else "") + m.group(3) + m.group(4)
     return t
 
 
@@ -84,6 +85,9 @@ def tree(toks, opts):
             items = stack.pop()
             d = opens.pop()
             stack[-1].append(G(d, items))
+        elif k == "lit:float" and re.match(r"^[0-9]+\.[0-9]+$", t) and stack[-1] and is_tok(stack[-1][-1], ".") and not (len(stack[-1]) >= 2 and is_tok(stack[-1][-2], ".")):
+            a, b = t.split(".")
+            stack[-1].extend([a, ".", b])
         else:
             stack[-1].append(atom(k, t, opts) if k != "p" else t)
     while len(stack) > 1:
@@ -123,7 +127,7 @@ def call_like(prev):
         return prev.d in ("(", "[")         # f(a)(b), a[i](b)
     if is_ident(prev) and prev not in KEYWORDS:
         return True
-    if prev in ("self", "Self", "super", "crate"):
+    if prev in ("self", "Self", "super", "crate", "fn"):
         return True
     return prev in (">", "?", "!")
 
@@ -137,6 +141,13 @@ def norm_seq(items, opts, ctx):
     while i < n:
         x = items[i]
         prev = out[-1] if out else None
+        if isinstance(x, G) and ((len(out) >= 3 and is_tok(out[-2], "!") and is_tok(out[-3], "macro_rules") and is_ident(out[-1]))
+                                 or (len(out) >= 4 and is_tok(out[-3], "!") and is_tok(out[-4], "macro_rules") and is_tok(out[-2], "$") and is_ident(out[-1]))):
+            out.append(G("{", macro_def(x.items, opts)))
+            i += 1
+            while i < n and is_tok(items[i], ";"):
+                i += 1
+            continue
         if isinstance(x, G):
             inner = norm_seq(x.items, opts, x.d)
             g = G(x.d, inner)
@@ -144,13 +155,17 @@ def norm_seq(items, opts, ctx):
             if opts.get("remove_nested_parens", "true") == "true":
                 while g.d == "(" and len(g.items) == 1 and isinstance(g.items[0], G) and g.items[0].d == "(" and not call_like(prev):
                     g = g.items[0]
+            if g.d == "(" and len(g.items) == 1 and isinstance(g.items[0], str) and re.match(r"^[0-9]", g.items[0]) and not call_like(prev):
+                out.append(g.items[0])
+                i += 1
+                continue
             # the delimiter of a macro call: name ! ( .. ) / [ .. ] / { .. }
             if is_tok(prev, "!") and len(out) >= 2 and is_ident(out[-2]):
                 g = G("(", g.items)
                 out.append(g)
                 i += 1
-                # `m! { .. }` as a statement has no `;`, `m!( .. );` has one: drop it
-                if i < n and is_tok(items[i], ";"):
+                # `m! { .. }` as a statement has no `;`, `m!( .. );` has one (and further `;` are redundant)
+                while i < n and is_tok(items[i], ";"):
                     i += 1
                 continue
             out.append(g)
@@ -159,7 +174,7 @@ def norm_seq(items, opts, ctx):
         # empty generic lists / binders:  < >  disappears
         if is_tok(x, "<") and i + 1 < n and is_tok(items[i + 1], ">"):
             i += 2
-            if out and is_tok(out[-1], "::") :
+            if out and (is_tok(out[-1], "::") or is_tok(out[-1], "for")):
                 out.pop()
             continue
         out.append(x)
@@ -167,6 +182,36 @@ def norm_seq(items, opts, ctx):
     out = glue(out)
     out = rewrite(out, opts, ctx)
     return out
+
+
+def macro_def(items, opts):
+    """arms `(matcher) => {body}` separated by `;` (trailing one optional); matchers are compared verbatim,
+    bodies as code; the delimiters of matcher and body are not significant"""
+    out = []
+    arms = split_top(glue(list(items)), ";")
+    for arm in arms:
+        if not arm:
+            continue
+        if len(arm) == 3 and isinstance(arm[0], G) and is_tok(arm[1], "=>") and isinstance(arm[2], G):
+            out.append(G("(", raw(arm[0].items)))
+            out.append("=>")
+            o2 = dict(opts)
+            o2["_macro_def"] = True
+            out.append(G("{", norm_seq(arm[2].items, o2, "{")))
+        else:
+            out.extend(raw(arm))
+        out.append(";")
+    return out
+
+
+def raw(items):
+    res = []
+    for x in items:
+        if isinstance(x, G):
+            res.append(G(x.d, raw(x.items)))
+        else:
+            res.append(x)
+    return res
 
 
 def glue(seq):
@@ -208,17 +253,11 @@ def rewrite(seq, opts, ctx):
             i += 1
             continue
         # for<> binder already removed `<>`: drop the dangling `for`
-        # explicit ABI
-        if is_tok(x, "extern") and not (isinstance(nxt, str) and (nxt.startswith('"') or nxt.startswith("r") and '"' in nxt[:3] or nxt == "crate")):
-            if opts.get("force_explicit_abi", "true") == "true":
-                out.append(x)
-                out.append('"C"')
-                i += 1
-                continue
-        if is_tok(x, "extern") and is_tok(nxt, '"C"') and opts.get("force_explicit_abi", "true") != "true":
+        # explicit ABI: `extern` <-> `extern "C"` (canonical form: with the ABI)
+        if is_tok(x, "extern") and not is_tok(nxt, "crate") and not (isinstance(nxt, str) and re.match(r'^(r#*)?"', nxt)):
             out.append(x)
             out.append('"C"')
-            i += 2
+            i += 1
             continue
         # pub(in crate|self|super) -> pub(crate|self|super)
         if is_tok(x, "pub") and isinstance(nxt, G) and nxt.d == "(" and len(nxt.items) == 2 and is_tok(nxt.items[0], "in") and nxt.items[1] in ("crate", "self", "super"):
@@ -226,10 +265,33 @@ def rewrite(seq, opts, ctx):
             out.append(G("(", [nxt.items[1]]))
             i += 2
             continue
+        if is_tok(x, "pub") and isinstance(nxt, G) and nxt.d == "(" and len(nxt.items) >= 3 and is_tok(nxt.items[0], "in") and is_tok(nxt.items[1], "::"):
+            out.append(x)
+            out.append(G("(", [nxt.items[0]] + nxt.items[2:]))
+            i += 2
+            continue
         out.append(x)
         i += 1
-    out = arms_and_closures(out, opts, ctx)
+    out = block_tails(out)
+    if not opts.get("_macro_def"):
+        out = arms_and_closures(out, opts, ctx)
     out = trailing_seps(out, ctx)
+    return out
+
+
+def block_tails(seq):
+    """`return;` / `break;` / `continue;` as the last statement of a block: the `;` is optional"""
+    out = []
+    for x in seq:
+        if isinstance(x, G) and x.d == "{" and x.items and is_tok(x.items[-1], ";"):
+            items = x.items
+            j = len(items) - 2
+            while j >= 0 and not is_tok(items[j], ";") and not (isinstance(items[j], G) and items[j].d == "{"):
+                j -= 1
+            last = items[j + 1:-1]
+            if last and isinstance(last[0], str) and last[0] in ("return", "break", "continue"):
+                x = G("{", items[:-1])
+        out.append(x)
     return out
 
 
@@ -241,6 +303,10 @@ def single_expr_block(g):
         if is_tok(x, ";"):
             return False
     first = g.items[0]
+    if is_tok(first, "use") and len(g.items) > 1 and is_tok(g.items[1], "|"):
+        return True
+    if is_tok(first, "#") and len(g.items) > 1 and isinstance(g.items[1], G) and g.items[1].d == "[":
+        return True
     if isinstance(first, str) and (first.startswith("DOC:") or first == "#" or first in ("let", "fn", "struct", "enum", "use", "mod", "impl", "trait", "type", "const", "static", "macro_rules")):
         return False
     return True
@@ -257,10 +323,10 @@ def arms_and_closures(seq, opts, ctx):
         if is_tok(x, "=>") and ctx == "{" and isinstance(nxt, G) and nxt.d == "{":
             after = seq[i + 2] if i + 2 < n else None
             out.append(x)
-            if single_expr_block(nxt):
-                out.extend(nxt.items)
-            else:
-                out.append(nxt)
+            body = [nxt]
+            while len(body) == 1 and single_expr_block(body[0]):
+                body = body[0].items
+            out.extend(body)
             i += 2
             if is_tok(after, ","):
                 i += 1
@@ -292,9 +358,16 @@ def arms_and_closures(seq, opts, ctx):
                         if is_tok(out[j], ";") or is_tok(out[j], "=>"):
                             break
                         j += 1
+                if close is not None and close > i + 1 and is_tok(out[close - 1], ","):
+                    del out[close - 1]
+                    n -= 1
+                    close -= 1
                 if close is not None and close + 1 < n and single_expr_block(out[close + 1]) and not any(is_tok(t, "=>") for t in out[i:close]):
                     res.extend(out[i:close + 1])
-                    res.extend(out[close + 1].items)
+                    body = [out[close + 1]]
+                    while len(body) == 1 and single_expr_block(body[0]):
+                        body = body[0].items
+                    res.extend(body)
                     i = close + 2
                     continue
         res.append(x)
@@ -307,7 +380,8 @@ def arms_and_closures(seq, opts, ctx):
         x = res[i]
         if is_tok(x, "|") and ctx == "{":
             prev = final[-1] if final else None
-            if prev is None or is_tok(prev, ",") or (isinstance(prev, G) and prev.d == "{"):
+            after_attr = isinstance(prev, G) and prev.d == "[" and len(final) >= 2 and is_tok(final[-2], "#")
+            if prev is None or is_tok(prev, ",") or (isinstance(prev, G) and prev.d == "{") or after_attr:
                 # an arm (not a closure statement) iff a top-level `=>` comes before the next `,`
                 j = i + 1
                 arrow = False
@@ -321,6 +395,8 @@ def arms_and_closures(seq, opts, ctx):
                     continue
         final.append(x)
         i += 1
+    if ctx == "{" and any(is_tok(t, "=>") for t in final):
+        final = [x for k, x in enumerate(final) if not (is_tok(x, ",") and k > 0 and isinstance(final[k - 1], G) and final[k - 1].d == "{")]
     return final
 
 
@@ -335,14 +411,35 @@ def trailing_seps(seq, ctx):
                 ncommas = sum(1 for t in items if is_tok(t, ","))
                 if x.d != "(" or ncommas >= 2 or call_like(prev):
                     items = items[:-1]
-            # `;` before `}` is NOT optional in general (it changes the block's value): kept
+            if x.d == "{" and items and is_tok(items[-1], ";"):
+                # `return;` / `break;` / `continue;` as the last statement of a block: the `;` is optional
+                j = len(items) - 2
+                while j >= 0 and not is_tok(items[j], ";") and not (isinstance(items[j], G) and items[j].d == "{"):
+                    j -= 1
+                last = items[j + 1:-1]
+                if last and isinstance(last[0], str) and last[0] in ("return", "break", "continue"):
+                    items = items[:-1]
             x = G(x.d, items)
         out.append(x)
-    # generic argument lists: `,` before `>`
+    # generic argument lists: `,` before `>`; where clauses: `,` before the `{`, `;` or `=` that ends them
     res = []
+    in_where = False
+    angle = 0
     for k, x in enumerate(out):
-        if is_tok(x, ",") and k + 1 < len(out) and is_tok(out[k + 1], ">"):
+        nxt = out[k + 1] if k + 1 < len(out) else None
+        if is_tok(x, "where"):
+            in_where = True
+            angle = 0
+        if in_where and is_tok(x, "<"):
+            angle += 1
+        if in_where and is_tok(x, ">") and angle > 0:
+            angle -= 1
+        if is_tok(x, ",") and is_tok(nxt, ">"):
             continue
+        if is_tok(x, ",") and in_where and angle == 0 and (nxt is None or is_tok(nxt, ";") or is_tok(nxt, "=") or (isinstance(nxt, G) and nxt.d == "{")):
+            continue
+        if in_where and angle == 0 and (is_tok(x, ";") or is_tok(x, "=") or (isinstance(x, G) and x.d == "{")):
+            in_where = False
         res.append(x)
     return res
 
@@ -365,58 +462,43 @@ def items_runs(flat, opts):
     return flat
 
 
-def use_leaves(tokens):
-    """leaves of a use tree given as a flat token list (without the leading `use` and trailing `;`)"""
+def use_leaves(items, drop_root=False):
+    """leaves of a use tree given as tree items (without the leading `use` and the trailing `;`):
+    `a::{self, b as c, d::*}` -> [a, a::b as c, a::d::*]; `x as x` = `x`; an empty list denotes nothing"""
     def parse(ts, prefix):
         res = []
-        # split on top-level commas
-        depth = 0
-        cur = []
-        parts = []
-        for t in ts:
-            if t == "{":
-                depth += 1
-            elif t == "}":
-                depth -= 1
-            if t == "," and depth == 0:
-                parts.append(cur)
-                cur = []
-            else:
-                cur.append(t)
-        parts.append(cur)
-        for p in parts:
-            if not p:
+        for part in split_top(ts, ","):
+            if not part:
                 continue
-            if "{" in p:
-                k = p.index("{")
-                # matching close is the last token
-                head = [t for t in p[:k] if t != "::"]
-                inner = p[k + 1:-1]
-                res += parse(inner, prefix + head)
-            else:
-                segs = []
+            segs = []
+            alias = None
+            sub = None
+            j = 0
+            while j < len(part):
+                t = part[j]
+                if isinstance(t, G):
+                    sub = t
+                    break
+                if t == "as":
+                    alias = part[j + 1] if j + 1 < len(part) and isinstance(part[j + 1], str) else None
+                    break
+                if t != "::":
+                    segs.append(t)
+                elif j == 0 and not prefix and not drop_root:
+                    segs.append("")          # leading `::`
+                j += 1
+            path = prefix + segs
+            if sub is not None:
+                res += parse(sub.items, path)
+                continue
+            if path and path[-1] == "self" and len(path) > 1:
+                path = path[:-1]
+            if alias is not None and path and alias == path[-1]:
                 alias = None
-                j = 0
-                while j < len(p):
-                    if p[j] == "as":
-                        alias = p[j + 1] if j + 1 < len(p) else None
-                        break
-                    if p[j] != "::":
-                        segs.append(p[j])
-                    j += 1
-                path = prefix + segs
-                if path and path[-1] == "self" and len(path) > 1:
-                    path = path[:-1]
-                if alias is not None and path and alias == path[-1]:
-                    alias = None
+            if path:
                 res.append("::".join(path) + ((" as " + alias) if alias else ""))
         return res
-    lead = ""
-    ts = list(tokens)
-    if ts and ts[0] == "::":
-        lead = "::"
-        ts = ts[1:]
-    return sorted(set(lead + l for l in parse(ts, [])))
+    return sorted(set(parse(list(items), [])))
 
 
 def reorder_runs(seq, opts):
@@ -425,11 +507,20 @@ def reorder_runs(seq, opts):
     stmts = []
     cur = []
     for x in seq:
+        if isinstance(x, str) and (x.startswith("DOC:dli") or x.startswith("DOC:dbi")):
+            if cur:
+                stmts.append(cur)
+            stmts.append([x])
+            cur = []
+            continue
         cur.append(x)
         if is_tok(x, ";"):
             stmts.append(cur)
             cur = []
-        elif isinstance(x, G) and x.d == "{":
+        elif isinstance(x, G) and x.d == "[" and len(cur) == 3 and is_tok(cur[0], "#") and is_tok(cur[1], "!"):
+            stmts.append(cur)          # inner attribute
+            cur = []
+        elif isinstance(x, G) and x.d == "{" and not any(is_tok(t, "use") for t in cur[:-1]):
             stmts.append(cur)
             cur = []
     tail = cur
@@ -438,7 +529,7 @@ def reorder_runs(seq, opts):
         core = list(st)
         # strip attributes and visibility
         j = 0
-        while j < len(core) and (is_tok(core[j], "#") or (isinstance(core[j], G) and core[j].d == "[" and j > 0 and is_tok(core[j - 1], "#")) or (isinstance(core[j], str) and core[j].startswith("DOC:"))):
+        while j < len(core) and (is_tok(core[j], "#") or (isinstance(core[j], G) and core[j].d == "[" and j > 0 and is_tok(core[j - 1], "#")) or (isinstance(core[j], str) and (core[j].startswith("DOC:dlo") or core[j].startswith("DOC:dbo")))):
             j += 1
         k = j
         if k < len(core) and is_tok(core[k], "pub"):
@@ -479,8 +570,7 @@ def reorder_runs(seq, opts):
             classes = {}
             for st, (_, a, k) in run:
                 head = tuple(flatten(st[:k], []))
-                body = flatten(st[k + 1:-1], [])
-                classes.setdefault(head, set()).update(use_leaves(body))
+                classes.setdefault(head, set()).update(use_leaves(st[k + 1:-1], opts.get("edition", "2015") == "2015"))
             for head in sorted(classes):
                 out.append("USE[" + " ".join(head) + "]{" + "; ".join(sorted(classes[head])) + "}")
         else:
